@@ -8,10 +8,20 @@ from gffutils import merge_criteria as mc
 from gv.model import dbutil
 
 ID = "C16"
-RULE = ("part 'merge': every start-ordered multiset of <= 3 (quick) / <= 4 (thorough) intervals over 6 positions x 9 criteria sets x "
-        "seqid/strand/type pattern x object history {fresh, previously merged under other criteria, merged twice, outputs re-merged}; part "
-        "'db': merge_all (exclude_components on/off) and children_bp (merge on/off) on databases built from the same multisets. "
-        "Non-trivial = the reference partition has a multi-member run and a run boundary, or objects are not fresh")
+RULE = (
+    "Part 'merge' (shards = 11 criteria sets x blocks of multisets): every start-ordered multiset of <= 3 intervals over 6 positions "
+    "plus all 4-multisets over 4 positions (quick, 2738) / <= 4 intervals over 6 positions (thorough, 12649) x seqid/strand/type "
+    "pattern {uniform, last differs in strand, type, seqid} x object history {fresh, previously merged under 'exact', merged twice, "
+    "outputs re-merged, after children_bp calls}; criteria = default, 7 library sets, two custom predicates and the empty list, handed "
+    "over as list/tuple/iterator/generator in rotation. The real merge() output is compared with a reference run-builder: partition, "
+    "extents, fresh distinct ids, singletons, inputs unchanged, repeatability, default-criteria extents equal an independent interval "
+    "union, no exception; database unchanged on sampled executions. Part 'db': multisets of <= 3 members (quick: all) x {merge_all, "
+    "merge_all exclude_components, merge_all with end-threshold-2 and with exact criteria, children_bp, children_bp merge} x "
+    "ascending/descending file order on real file databases: result count, stored extents, components deleted or related, singletons "
+    "kept; children_bp value, keyword = positional call, database unchanged. Part 'scale' (2 executions): 1700 exons with one "
+    "1300-member run, merge_all with both exclude_components settings. Non-trivial = the reference partition has a multi-member run and "
+    "a run boundary, or objects are not fresh (merge); a multi-member run (db); every scale execution."
+)
 ASSUMPTIONS = [
     "criteria sets are such that an ambiguous accumulated field (seqid list, '.', 'sequence_feature') is never consulted",
     "merged ids are required to be distinct from each other and from the inputs' ids, not to have a particular value",
